@@ -1,3 +1,5 @@
 import AM.Base.Map
 import AM.Model.Nflog
 import AM.Props.C10
+import AM.Model.Suppress
+import AM.Props.Suppress
